@@ -885,6 +885,26 @@ func checkRankComposites(c *Ctx, r *Rec, cr *collRoles) {
 			}
 			return true
 		})
+		// a ranker that exchanges its two operands in place (and remembers that it did) is another
+		// design: which of its values is "first" depends on the path, so the rules that read the
+		// parameters as first and second do not apply to its loops
+		exchangesInPlace := false
+		inspectNoLit(fd.Body, func(x ast.Node) bool {
+			if as, ok := x.(*ast.AssignStmt); ok && as.Tok == token.ASSIGN && len(as.Lhs) == len(as.Rhs) {
+				for i, l := range as.Lhs {
+					for k := 0; k < 2; k++ {
+						if isObj(info, l, params[k]) && isObj(info, as.Rhs[i], params[1-k]) {
+							exchangesInPlace = true
+						}
+					}
+				}
+			}
+			return true
+		})
+		if exchangesInPlace {
+			r.skip("D8-operand-symmetry", c.fdName(fd)+"/pairwise-loops", c.pos(fd.Pos()), "the operands are exchanged in place before the loop: what is first and what is second depends on the path taken")
+			continue
+		}
 		// pairwise loops
 		for li, loop := range loopsIn(fd.Body) {
 			var fs ast.Stmt = loop
@@ -908,7 +928,10 @@ func checkRankComposites(c *Ctx, r *Rec, cr *collRoles) {
 			inspectNoLit(loopBody, func(x ast.Node) bool {
 				if call, ok := x.(*ast.CallExpr); ok && len(call.Args) == 2 {
 					if cf := calleeOf(info, call); cf != nil && recvNamed(cf) != nil && recvNamed(cf).Origin() == cr.n.Origin() && cr.returnsRank(c, c.declOf(cf)) {
-						calls = append(calls, call)
+						// a ranker takes two values; a helper that takes a rank (to reverse it, say) is not one
+						if sig, ok := cf.Type().(*types.Signature); ok && sig.Params().Len() == 2 && !types.Identical(sig.Params().At(0).Type(), sig.Results().At(0).Type()) && types.Identical(sig.Params().At(0).Type(), sig.Params().At(1).Type()) {
+							calls = append(calls, call)
+						}
 					}
 				}
 				return true
